@@ -16,7 +16,8 @@ EXPLANATION = (
     "V6/SOCKS4: the IPv6 edge of both write_v4 reaches an error without a later write; ONE: Context::set_target is called only from "
     "listener-side code; W1 on the encoders. Decides these structural clauses, not value-level round-trip equality."
     ' MAP: v6->v4 normalisation (peer addresses, transparent-proxy destinations) is the exact inverse of v4-mapping (to_ipv4_mapped), never Ipv6Addr::to_ipv4.'
-    ' WIRE (buffer mode): the SOCKS5 UDP header and the internal address attribute are laid out identically by encoder and decoder.')
+    ' WIRE (buffer mode): the SOCKS5 UDP header and the internal address attribute are laid out identically by encoder and decoder.'
+    ' UDP-LABEL: datagrams read from a listener-side session socket are labelled with the session target after the receive (Frame::recv_from labels with the source).')
 RULE_TEXT = "instances = casts, validator clauses, tag tables, refusal edges, set_target call sites"
 TRUSTED = ["UDP payloads are <= 65507 bytes (u16 body length in the RPFM header)", "rustc type checking of integer widths"]
 NOT_DECIDED = ["round-trip equality for all strings", "from_utf8_lossy reinterpretation of non-UTF-8 hosts (recorded as finding candidate F17)"]
